@@ -298,6 +298,10 @@ def main():
         print(f"VIOLATION property={pid} replay={path}{tail}")
         print(f"  {v['kind']}: {v['what']}")
         exit_code = 1
+    # every LISTED finding of this property is named on every run (the ones this run did not exercise are marked as such)
+    for k in kn:
+        if k['key'] not in printed_known:
+            print(f"KNOWN-FINDING: property={pid} {k['what']} [listed in known_findings.json; not exercised by this run]")
     if broken and not new_failing:
         # (a failing input that is a LISTED known finding does not explain a broken obligation: the obligation is reported)
         for b in broken:
